@@ -95,6 +95,8 @@ def generate(rng: random.Random, tier: str) -> dict:
         # the outgoing side stops taking messages for a while around the moment the cancellation is noticed
         bs = max(t0 + 2, cancel["t"] + rng.choice([-300, -5, -1, 0, 1, 100, 400]))
         wblock = {"at": bs, "dur": rng.choice([100, 511, 513, 700, 1100, 1600])}
+        if rng.random() < 0.3:
+            wblock["break"] = True   # ... or goes away for good (the transport's writer is gone): sends fail from then on
         if cb:
             cb["sleep"] = 0
     follow_up = None
@@ -207,12 +209,20 @@ def execute(scn: dict) -> dict:
                         taken.append((sim.rec("peer", "writer-took", None), sim.now(), "writer", item))
 
             def block_on():
+                if wb.get("break"):
+                    st["t_broken"] = sim.now()
+                    sim.fault("outgoing_side_broken")
+                    consumer_task.cancel()
+                    _keep.close()
+                    return
                 gate["on"], gate["ev"] = True, anyio.Event()
                 sim.fault("outgoing_side_stalled")
                 if gate["scope"] is not None:
                     gate["scope"].cancel()
 
             def block_off():
+                if wb.get("break"):
+                    return
                 gate["on"] = False
                 gate["ev"].set()
 
@@ -420,7 +430,10 @@ def execute(scn: dict) -> dict:
     # outgoing side stalled while the cancellation is being noticed: the cancelled notification (and with it the CancelledError) waits for it
     notice_by = (tc + POLL) if tc is not None else None
     wb_edge = False
-    if scn.get("wblock") and tc is not None:
+    broken = st.get("t_broken")
+    if broken is not None:
+        probe("outgoing_side_broken_before_cancel_noticed")
+    if scn.get("wblock") and tc is not None and broken is None:
         bs, be = ticks(scn["wblock"]["at"]), ticks(scn["wblock"]["at"] + scn["wblock"]["dur"])
         if bs <= tc + POLL and be > tc:
             notice_by = max(notice_by, be)
@@ -515,6 +528,8 @@ def execute(scn: dict) -> dict:
     # exactly one cancelled notification iff the call ended cancelled
     if not pre_cancel:
         want = 1 if actual[0] == "cancelled" else 0
+        if broken is not None and tc is not None and broken <= tc + POLL:
+            want = len(cancels) if len(cancels) <= 1 else want   # nothing can be written any more: 0 is all that is possible (1 if it went out just before)
         if len(cancels) != want and not (wb_edge and len(cancels) <= 1):
             V("cancel-notification", f"count={len(cancels)}:outcome={actual[0]}", f"{len(cancels)} cancelled notifications written, expected {want}")
     for c in cancels:
